@@ -9,6 +9,7 @@ this is just "complete prefix expression").  All operator theorems quantify over
 -/
 import DeapModel.Lemmas.C11Ops
 import DeapModel.Lemmas.C11Add
+import DeapModel.Lemmas.C11TotalOps
 
 namespace C11
 open GpTree
@@ -227,11 +228,14 @@ theorem splice_complete (t s u : Tree) (i : Nat)
 the requested type, all of whose leaves are at one depth `h` with `min ≤ h ≤ max`, and `h` is its
 height. -/
 theorem gen_full (ps : Pset) (ok : PsetOK ps) (mn mx τ : Nat) (tp tp' : Tape) (out : List Prim)
-    (hg : genFull ps mn mx τ tp = some (out, tp')) :
+    (hg : genFull ps mn mx τ tp = .ok (out, tp')) :
     ∃ t, flatten t = out ∧ wt ps.sub τ t = true ∧
       ∃ h, mn ≤ h ∧ h ≤ mx ∧ (∀ x ∈ leafDepths 0 t, x = h) ∧ t.height = h := by
   unfold genFull generate at hg
   split at hg
+  · simp at hg
+  split at hg
+  · simp at hg
   · rename_i a b x tp1
     split at hg
     · rename_i hc
@@ -270,16 +274,19 @@ theorem gen_full (ps : Pset) (ok : PsetOK ps) (mn mx τ : Nat) (tp tp' : Tape) (
   · simp at hg
 
 example : genFull exPs 1 1 1 [.randint 1 1 1, .choice 3 0, .choice 3 2, .randint 0 9 4, .choice 3 1] =
-    some ([pAdd, { pEph with text := "4" }, pTrue], []) := by rfl
+    .ok ([pAdd, { pEph with text := "4" }, pTrue], []) := by rfl
 
 /-- `genGrow`: whenever it returns, the result is the prefix form of a tree that is well typed for
 the requested type, no leaf is shallower than `min`, and the height lies in `[min, max]`. -/
 theorem gen_grow (ps : Pset) (ok : PsetOK ps) (mn mx τ : Nat) (tp tp' : Tape) (out : List Prim)
-    (hg : genGrow ps mn mx τ tp = some (out, tp')) :
+    (hg : genGrow ps mn mx τ tp = .ok (out, tp')) :
     ∃ t, flatten t = out ∧ wt ps.sub τ t = true ∧
       (∀ x ∈ leafDepths 0 t, mn ≤ x) ∧ mn ≤ t.height ∧ t.height ≤ mx := by
   unfold genGrow generate at hg
   split at hg
+  · simp at hg
+  split at hg
+  · simp at hg
   · rename_i a b x tp1
     split at hg
     · rename_i hc
@@ -326,12 +333,12 @@ theorem gen_grow (ps : Pset) (ok : PsetOK ps) (mn mx τ : Nat) (tp tp' : Tape) (
     · simp at hg
   · simp at hg
 
-example : genGrow exPs 0 0 1 [.randint 0 0 0, .choice 3 1] = some ([pTrue], []) := by rfl
+example : genGrow exPs 0 0 1 [.randint 0 0 0, .choice 3 1] = .ok ([pTrue], []) := by rfl
 
 /-- `genHalfAndHalf` returns what `genGrow` or `genFull` returns, so its trees satisfy the grow
 guarantees (which the full guarantees imply). -/
 theorem gen_half (ps : Pset) (ok : PsetOK ps) (mn mx τ : Nat) (tp tp' : Tape) (out : List Prim)
-    (hg : genHalfAndHalf ps mn mx τ tp = some (out, tp')) :
+    (hg : genHalfAndHalf ps mn mx τ tp = .ok (out, tp')) :
     ∃ t, flatten t = out ∧ wt ps.sub τ t = true ∧
       (∀ x ∈ leafDepths 0 t, mn ≤ x) ∧ mn ≤ t.height ∧ t.height ≤ mx := by
   unfold genHalfAndHalf at hg
@@ -345,7 +352,7 @@ theorem gen_half (ps : Pset) (ok : PsetOK ps) (mn mx τ : Nat) (tp tp' : Tape) (
       exact ⟨t, hf, hw, fun x hx => by rw [h3 x hx]; exact h1, by omega, by omega⟩
 
 example : genHalfAndHalf exPs 1 1 2 [.choice 2 1, .randint 1 1 1, .choice 2 1, .choice 1 0, .choice 1 0] =
-    some ([pAnd, pTrue, pTrue], []) := by rfl
+    .ok ([pAnd, pTrue, pTrue], []) := by rfl
 
 /-! ## Crossovers -/
 
@@ -359,7 +366,7 @@ slot) and conserves the total node count — for every primitive set, loosely or
 whatever the root returns (it always matches return types). -/
 theorem cx_closed {r1 r2 : Nat} {ind1 ind2 o1 o2 : List Prim} {tp tp' : Tape}
     (h1 : WellFormed sub r1 ind1) (h2 : WellFormed sub r2 ind2)
-    (h : cxOnePoint ind1 ind2 tp = some (o1, o2, tp')) :
+    (h : cxOnePoint ind1 ind2 tp = .ok (o1, o2, tp')) :
     WellFormed sub r1 o1 ∧ WellFormed sub r2 o2 ∧ o1.length + o2.length = ind1.length + ind2.length := by
   rw [wellFormed_iff_typed] at h1 h2 ⊢
   rw [wellFormed_iff_typed]
@@ -382,13 +389,13 @@ theorem cx_closed {r1 r2 : Nat} {ind1 ind2 o1 o2 : List Prim} {tp tp' : Tape}
 omit refl trans in
 example : WellFormed exSub 1 [pAdd, pOne, pOne] ∧ WellFormed exSub 1 [pAdd, pTrue, pAdd, pOne, pOne] ∧
     cxOnePoint [pAdd, pOne, pOne] [pAdd, pTrue, pAdd, pOne, pOne] [.pick 1 1, .choice 2 0, .choice 3 0] =
-      some ([pAdd, pAdd, pOne, pOne, pOne], [pAdd, pTrue, pOne], []) :=
+      .ok ([pAdd, pAdd, pOne, pOne, pOne], [pAdd, pTrue, pOne], []) :=
   ⟨ex_wf3, ex_wf5, by rfl⟩
 
 /-- `cxOnePointLeafBiased`: same guarantees, for every `termpb` (it always matches return types). -/
 theorem cxlb_closed {r1 r2 : Nat} {ind1 ind2 o1 o2 : List Prim} {termpb : Float} {tp tp' : Tape}
     (h1 : WellFormed sub r1 ind1) (h2 : WellFormed sub r2 ind2)
-    (h : cxOnePointLeafBiased ind1 ind2 termpb tp = some (o1, o2, tp')) :
+    (h : cxOnePointLeafBiased ind1 ind2 termpb tp = .ok (o1, o2, tp')) :
     WellFormed sub r1 o1 ∧ WellFormed sub r2 o2 ∧ o1.length + o2.length = ind1.length + ind2.length := by
   rw [wellFormed_iff_typed] at h1 h2 ⊢
   rw [wellFormed_iff_typed]
@@ -413,16 +420,16 @@ theorem cxlb_closed {r1 r2 : Nat} {ind1 ind2 o1 o2 : List Prim} {termpb : Float}
         · simp at h; obtain ⟨rfl, rfl, _⟩ := h; exact ⟨h1, h2, rfl⟩
 
 omit refl trans in
-example : ∃ o, cxOnePointLeafBiased [pAdd, pOne, pOne] [pOne] 0.5 [] = some o := ⟨_, rfl⟩
+example : ∃ o, cxOnePointLeafBiased [pAdd, pOne, pOne] [pOne] 0.5 [] = .ok o := ⟨_, rfl⟩
 
 /-! ## Mutations -/
 
 /-- `mutUniform` with ANY replacement generator that returns well-formed trees of the requested
 type (`gen_full`, `gen_grow`, `gen_half` show the three DEAP generators qualify). -/
 theorem mutUniform_closed {r : Nat} {ind out : List Prim} {tp tp' : Tape}
-    {expr : Nat → Tape → Option (List Prim × Tape)}
-    (hexpr : ∀ τ tp o tp', expr τ tp = some (o, tp') → WellFormed sub τ o)
-    (h1 : WellFormed sub r ind) (h : mutUniform ind expr tp = some (out, tp')) :
+    {expr : Nat → Tape → R (List Prim × Tape)}
+    (hexpr : ∀ τ tp o tp', expr τ tp = .ok (o, tp') → WellFormed sub τ o)
+    (h1 : WellFormed sub r ind) (h : mutUniform ind expr tp = .ok (out, tp')) :
     WellFormed sub r out := by
   rw [wellFormed_iff_typed] at h1 ⊢
   unfold mutUniform at h
@@ -443,9 +450,9 @@ theorem mutUniform_closed {r : Nat} {ind out : List Prim} {tp tp' : Tape}
     · simp at h
 
 omit refl trans in
-example : (∀ τ tp o tp', genFull exPs 0 0 τ tp = some (o, tp') → WellFormed exSub τ o) ∧
+example : (∀ τ tp o tp', genFull exPs 0 0 τ tp = .ok (o, tp') → WellFormed exSub τ o) ∧
     mutUniform [pAdd, pOne, pOne] (genFull exPs 0 0) [.randrange 0 3 2, .randint 0 0 0, .choice 3 1] =
-      some ([pAdd, pOne, pTrue], []) :=
+      .ok ([pAdd, pOne, pTrue], []) :=
   ⟨fun τ tp o tp' h => by
       obtain ⟨t, h1, h2, _⟩ := gen_full exPs exPs_ok 0 0 τ tp tp' o h; exact ⟨t, h2, h1⟩, by rfl⟩
 
@@ -453,7 +460,7 @@ example : (∀ τ tp o tp', genFull exPs 0 0 τ tp = some (o, tp') → WellForme
 (same node count). -/
 theorem nodeRepl_closed {ps : Pset} (ok : PsetOK ps) (hsub : ps.sub = sub)
     {r : Nat} {ind out : List Prim} {tp tp' : Tape}
-    (h1 : WellFormed sub r ind) (h : mutNodeReplacement ind ps tp = some (out, tp')) :
+    (h1 : WellFormed sub r ind) (h : mutNodeReplacement ind ps tp = .ok (out, tp')) :
     WellFormed sub r out ∧ out.length = ind.length := by
   subst hsub
   rw [wellFormed_iff_typed] at h1 ⊢
@@ -500,12 +507,12 @@ theorem nodeRepl_closed {ps : Pset} (ok : PsetOK ps) (hsub : ps.sub = sub)
               intro σ hσ; exact ok.trans _ _ _ hs hσ
 
 omit refl trans in
-example : mutNodeReplacement [pAdd, pOne, pOne] exPs [.randrange 1 3 1, .choice 3 1] = some ([pAdd, pTrue, pOne], []) := by rfl
+example : mutNodeReplacement [pAdd, pOne, pOne] exPs [.randrange 1 3 1, .choice 3 1] = .ok ([pAdd, pTrue, pOne], []) := by rfl
 
 omit refl trans in
 /-- `mutEphemeral` (both modes): only ephemeral values change; typing and shape are kept. -/
 theorem ephemeral_closed {r : Nat} {ind out : List Prim} {one : Bool} {tp tp' : Tape}
-    (h1 : WellFormed sub r ind) (h : mutEphemeral ind one tp = some (out, tp')) :
+    (h1 : WellFormed sub r ind) (h : mutEphemeral ind one tp = .ok (out, tp')) :
     WellFormed sub r out ∧ out.length = ind.length := by
   rw [wellFormed_iff_typed] at h1 ⊢
   unfold mutEphemeral at h
@@ -520,12 +527,12 @@ theorem ephemeral_closed {r : Nat} {ind out : List Prim} {one : Bool} {tp tp' : 
 
 omit refl trans in
 example : mutEphemeral [pAdd, pEph, pOne] true [.choice 1 0, .randint 0 9 3] =
-    some ([pAdd, { pEph with text := "3" }, pOne], []) := by rfl
+    .ok ([pAdd, { pEph with text := "3" }, pOne], []) := by rfl
 
 /-- `mutInsert`: closed, and never shrinks the tree. -/
 theorem insert_closed {ps : Pset} (ok : PsetOK ps) (hsub : ps.sub = sub)
     {r : Nat} {ind out : List Prim} {tp tp' : Tape}
-    (h1 : WellFormed sub r ind) (h : mutInsert ind ps tp = some (out, tp')) :
+    (h1 : WellFormed sub r ind) (h : mutInsert ind ps tp = .ok (out, tp')) :
     WellFormed sub r out ∧ ind.length ≤ out.length := by
   subst hsub
   rw [wellFormed_iff_typed] at h1 ⊢
@@ -573,14 +580,14 @@ theorem insert_closed {ps : Pset} (ok : PsetOK ps) (hsub : ps.sub = sub)
 
 omit refl trans in
 example : mutInsert [pAdd, pOne, pOne] exPs [.randrange 0 3 1, .choice 2 0, .choice 2 1, .choice 3 1] =
-    some ([pAdd, pAdd, pTrue, pOne, pOne], []) := by rfl
+    .ok ([pAdd, pAdd, pTrue, pOne, pOne], []) := by rfl
 
 omit refl trans in
 /-- `mutShrink`: closed, and never grows the tree. -/
 theorem shrink_closed
     (refl : ∀ a, sub a a = true) (trans : ∀ a b c, sub a b = true → sub b c = true → sub a c = true)
     {r : Nat} {ind out : List Prim} {tp tp' : Tape}
-    (h1 : WellFormed sub r ind) (h : mutShrink ind tp = some (out, tp')) :
+    (h1 : WellFormed sub r ind) (h : mutShrink ind tp = .ok (out, tp')) :
     WellFormed sub r out ∧ out.length ≤ ind.length := by
   rw [wellFormed_iff_typed] at h1 ⊢
   unfold mutShrink at h
@@ -629,7 +636,7 @@ theorem shrink_closed
                   rw [hsp] at hs'; simp at hs'; subst hs'
                   obtain ⟨hres, hty⟩ := hset (flatten c) (typed_iff_tree.2 ⟨c, hwc, rfl⟩)
                   rw [hres] at h
-                  simp only [Option.map_some, Option.some.injEq, Prod.mk.injEq] at h
+                  simp only [Except.ok.injEq, Prod.mk.injEq] at h
                   obtain ⟨rfl, _⟩ := h
                   refine ⟨hty, ?_⟩
                   have := size_le_sizeF cs argIdx c hc
@@ -638,7 +645,7 @@ theorem shrink_closed
         · simp at h; obtain ⟨rfl, _⟩ := h; exact ⟨h1, Nat.le_refl _⟩
 
 omit refl trans in
-example : mutShrink [pAdd, pAdd, pOne, pTrue, pOne] [.choice 1 0, .choice 2 1] = some ([pAdd, pTrue, pOne], []) := by rfl
+example : mutShrink [pAdd, pAdd, pOne, pTrue, pOne] [.choice 1 0, .choice 2 1] = .ok ([pAdd, pTrue, pOne], []) := by rfl
 
 end Ops
 
@@ -647,10 +654,10 @@ end Ops
 /-- An operator wrapped by `staticLimit` never returns a tree exceeding the limit when its inputs
 respected it (for any `key` — `len`, `height` — and any wrapped operator). -/
 theorem staticLimit_sound (key : List Prim → Option Nat) (maxv : Nat)
-    (op : List (List Prim) → Tape → Option (List (List Prim) × Tape))
+    (op : List (List Prim) → Tape → R (List (List Prim) × Tape))
     (args outs : List (List Prim)) (tp tp' : Tape)
     (hin : ∀ a ∈ args, ∃ k, key a = some k ∧ k ≤ maxv)
-    (h : staticLimit key maxv op args tp = some (outs, tp')) :
+    (h : staticLimit key maxv op args tp = .ok (outs, tp')) :
     ∀ o ∈ outs, ∃ k, key o = some k ∧ k ≤ maxv := by
   unfold staticLimit at h
   split at h
@@ -663,20 +670,22 @@ theorem staticLimit_sound (key : List Prim → Option Nat) (maxv : Nat)
 
 example : (∀ a ∈ [[pAdd, pOne, pOne]], ∃ k, (fun l : List Prim => some l.length) a = some k ∧ k ≤ 3) ∧
     staticLimit (fun l => some l.length) 3
-      (fun args tp => match args with | [x] => (mutInsert x exPs tp).map (fun (r, tp) => ([r], tp)) | _ => none)
+      (fun args tp => match args with
+        | [x] => (match mutInsert x exPs tp with | .ok (r, tp) => .ok ([r], tp) | .error e => .error e)
+        | _ => .error .raised)
       [[pAdd, pOne, pOne]] [.randrange 0 3 1, .choice 2 0, .choice 2 1, .choice 3 1, .choice 1 0] =
-      some ([[pAdd, pOne, pOne]], []) :=
+      .ok ([[pAdd, pOne, pOne]], []) :=
   ⟨by simp, by rfl⟩
 
 /-- … and every returned tree is either one the operator returned or a copy of an argument, so the
 wrapper preserves whatever the operator preserves (well-formedness, typing). -/
 theorem staticLimit_closed (Q : List Prim → Prop) (key : List Prim → Option Nat) (maxv : Nat)
-    (op : List (List Prim) → Tape → Option (List (List Prim) × Tape))
+    (op : List (List Prim) → Tape → R (List (List Prim) × Tape))
     (args outs : List (List Prim)) (tp tp' : Tape)
     (hin : ∀ a ∈ args, Q a)
-    (hop : ∀ new tp1, op args tp = some (new, tp1) → ∀ n ∈ new, Q n)
-    (h : staticLimit key maxv op args tp = some (outs, tp')) :
-    (∀ o ∈ outs, Q o) ∧ ∀ new tp1, op args tp = some (new, tp1) → outs.length = new.length := by
+    (hop : ∀ new tp1, op args tp = .ok (new, tp1) → ∀ n ∈ new, Q n)
+    (h : staticLimit key maxv op args tp = .ok (outs, tp')) :
+    (∀ o ∈ outs, Q o) ∧ ∀ new tp1, op args tp = .ok (new, tp1) → outs.length = new.length := by
   unfold staticLimit at h
   split at h
   · simp at h
@@ -688,6 +697,430 @@ theorem staticLimit_closed (Q : List Prim → Prop) (key : List Prim → Option 
       · exact hin o h'
       · exact hop new tp1 hop1 o h'
     · intro new' tp1' e; rw [hop1] at e; simp at e; rw [← e.1]; exact hl
+
+/-! ## Totality
+
+A run of the model ends in `.ok result` or in a `Fault`: `raised` (the Python code raises:
+IndexError of `random.choice([])`, of an index past the end, ValueError of the `__setitem__` guard /
+of an empty `randrange`), `fuel` (a modelled loop hit its iteration bound), `tapeEnd` (the tape is
+exhausted) or `mismatch` (the next draw does not answer the call the code makes — an ill-typed tape).
+`Benign n tape r` says: `r` is a result, or the tape is ill-typed, or the tape is shorter than `n`;
+in particular the code never raises and the loop bound is never hit.  `returns_of_total` turns it
+into "every well-typed tape of length ≥ n yields a result". -/
+
+/-- a total call returns a result on every well-typed tape that is long enough -/
+theorem returns_of_total {α : Type} {n : Nat} {tp : Tape} {r : R α} (h : Benign n tp r)
+    (hlen : n ≤ tp.length) (hty : r ≠ .error .mismatch) : ∃ x, r = .ok x :=
+  total_of_benign h hlen hty
+
+/-- `generate` (hence `genFull`, `genGrow`) terminates and raises no IndexError: for a primitive set
+in which every requestable type has a terminal and a primitive (`PsetFull`, arities ≤ `A`), for every
+`min ≤ max`, it returns on every well-typed tape of length ≥ `3·(1 + A + … + A^max) + 1`
+(one `randint`, then at most `random()`, `choice`, and an ephemeral draw per node). -/
+theorem gen_total (ps : Pset) (Rq : Nat → Prop) (A : Nat) (full : PsetFull ps Rq A) (mode : GenMode)
+    (mn mx τ : Nat) (hmm : mn ≤ mx) (hτ : Rq τ) (tp : Tape) :
+    Benign (3 * nodes A mx + 1) tp (generate mode ps mn mx τ tp) := by
+  unfold generate
+  rw [if_neg (by omega)]
+  cases tp with
+  | nil => simp [Benign]
+  | cons d tp' =>
+    cases d with
+    | randint a b x =>
+      simp only
+      split
+      · rename_i hc
+        obtain ⟨rfl, rfl, h1, h2⟩ := hc
+        have hb := genLoop_benign full mode mn x.toNat (tp'.length + 1) [(0, τ)] tp' (by omega)
+          (by intro e he; simp at he; subst he; exact ⟨by simp, hτ⟩)
+        have hle : nodes A x.toNat ≤ nodes A mx := nodes_mono A (by omega)
+        simp only [cost, Nat.sub_zero, Nat.add_zero] at hb
+        cases hr : genLoop mode ps mn x.toNat (tp'.length + 1) [(0, τ)] tp' with
+        | ok v => simp [Benign]
+        | error e =>
+          rw [hr] at hb
+          cases e <;> simp [Benign] at hb ⊢ <;> omega
+      · simp [Benign]
+    | _ => simp [Benign]
+
+theorem exPs_full : PsetFull exPs (fun τ => τ = 1 ∨ τ = 2) 2 where
+  terms_ne := by intro τ h; rcases h with rfl | rfl <;> simp [exPs]
+  prims_ne := by intro τ h; rcases h with rfl | rfl <;> simp [exPs]
+  closed := by
+    intro τ h p hp
+    rcases h with rfl | rfl <;> simp [exPs] at hp
+    · rcases hp with rfl | rfl | rfl <;> simp [pAdd, pLt, pAnd]
+    · rcases hp with rfl | rfl <;> simp [pLt, pAnd]
+
+/-- the bound for `exPs` (A = 2), `max = 1`: 3·(1 + 2) + 1 = 10 draws always suffice -/
+example : 3 * nodes 2 1 + 1 = 10 := by decide
+
+/-- a concrete instance: a well-typed tape of 10 draws makes `genFull exPs 1 1` return (the run uses 5) -/
+example : ∃ x, genFull exPs 1 1 1 [.randint 1 1 1, .choice 3 0, .choice 3 2, .randint 0 9 4, .choice 3 1,
+    .choice 1 0, .choice 1 0, .choice 1 0, .choice 1 0, .choice 1 0] = .ok x :=
+  returns_of_total (gen_total exPs _ 2 exPs_full .full 1 1 1 (by omega) (Or.inl rfl) _) (by decide)
+    (by rw [show genFull exPs 1 1 1 [.randint 1 1 1, .choice 3 0, .choice 3 2, .randint 0 9 4, .choice 3 1,
+          .choice 1 0, .choice 1 0, .choice 1 0, .choice 1 0, .choice 1 0] =
+          .ok ([pAdd, { pEph with text := "4" }, pTrue], [.choice 1 0, .choice 1 0, .choice 1 0, .choice 1 0, .choice 1 0]) from rfl]
+        simp)
+
+/-- `genHalfAndHalf`: one more draw (the `choice` between grow and full) -/
+theorem gen_half_total (ps : Pset) (Rq : Nat → Prop) (A : Nat) (full : PsetFull ps Rq A)
+    (mn mx τ : Nat) (hmm : mn ≤ mx) (hτ : Rq τ) (tp : Tape) :
+    Benign (3 * nodes A mx + 2) tp (genHalfAndHalf ps mn mx τ tp) := by
+  unfold genHalfAndHalf
+  cases hch : popChoice [GenMode.grow, GenMode.full] tp with
+  | error e => exact (popChoice_err (by simp) hch).benign (by omega)
+  | ok v =>
+    obtain ⟨m, tp1⟩ := v
+    have hl := (popChoice_ok hch).2
+    simp only
+    have hb := gen_total ps Rq A full m mn mx τ hmm hτ tp1
+    cases hr : generate m ps mn mx τ tp1 with
+    | ok v => simp [Benign]
+    | error e =>
+      rw [hr] at hb
+      cases e <;> simp [Benign] at hb ⊢ <;> omega
+
+section TotalOps
+variable {sub : Nat → Nat → Bool}
+  (refl : ∀ a, sub a a = true) (trans : ∀ a b c, sub a b = true → sub b c = true → sub a c = true)
+include refl trans
+
+/-- `cxOnePoint` on two well-formed trees never raises: it returns on every well-typed tape of
+length ≥ 3 (`choice` of the type, `choice` of each index). -/
+theorem cx_total {r1 r2 : Nat} {ind1 ind2 : List Prim} (tp : Tape)
+    (h1 : WellFormed sub r1 ind1) (h2 : WellFormed sub r2 ind2) :
+    Benign 3 tp (cxOnePoint ind1 ind2 tp) := by
+  rw [wellFormed_iff_typed] at h1 h2
+  unfold cxOnePoint
+  split
+  · simp [Benign]
+  · simp only
+    split
+    · rename_i hpos
+      cases hp : popPick (commonTypes (fun _ => true) (fun _ => true) ind1 ind2) tp with
+      | error e =>
+        exact (popPick_err (by intro h; rw [h] at hpos; simp at hpos) hp).benign (by omega)
+      | ok v =>
+        obtain ⟨τ, tp1⟩ := v
+        have hl := popPick_ok hp
+        obtain ⟨hn1, hn2⟩ := cands_ne_nil (popPick_ok' hp)
+        simp only [Bool.true_and] at hn1 hn2
+        simp only
+        have hb := swapAt_benign (tp := tp1) trans refl h1 h2 (c1 := idxFrom1 (fun p => p.ret == τ) ind1)
+          (c2 := idxFrom1 (fun p => p.ret == τ) ind2)
+          (by intro i1 hi1 i2 hi2
+              obtain ⟨_, p1, hp1, hf1⟩ := mem_idxFrom1 hi1
+              obtain ⟨_, p2, hp2, hf2⟩ := mem_idxFrom1 hi2
+              simp at hf1 hf2
+              exact ⟨p1, p2, hp1, hp2, by rw [hf1, hf2]; exact refl _, by rw [hf1, hf2]; exact refl _⟩)
+          hn1 hn2
+        cases hr : swapAt ind1 ind2 (idxFrom1 (fun p => p.ret == τ) ind1) (idxFrom1 (fun p => p.ret == τ) ind2) tp1 with
+        | ok v => simp [Benign]
+        | error e =>
+          rw [hr] at hb
+          cases e <;> simp [Benign] at hb ⊢ <;> omega
+    · simp [Benign]
+
+/-- `cxOnePointLeafBiased`: never raises; tapes of length ≥ 5 suffice (two `random()`, three `choice`). -/
+theorem cxlb_total {r1 r2 : Nat} {ind1 ind2 : List Prim} (termpb : Float) (tp : Tape)
+    (h1 : WellFormed sub r1 ind1) (h2 : WellFormed sub r2 ind2) :
+    Benign 5 tp (cxOnePointLeafBiased ind1 ind2 termpb tp) := by
+  rw [wellFormed_iff_typed] at h1 h2
+  unfold cxOnePointLeafBiased
+  split
+  · simp [Benign]
+  · cases hr1 : popRnd tp with
+    | error e => exact (popRnd_err hr1).benign (by omega)
+    | ok v =>
+      obtain ⟨x1, tp1⟩ := v
+      have hl1 := popRnd_ok hr1
+      simp only
+      cases hr2 : popRnd tp1 with
+      | error e => exact (popRnd_err hr2).benign_after (k := 1) (by omega) (by omega)
+      | ok v =>
+        obtain ⟨x2, tp2⟩ := v
+        have hl2 := popRnd_ok hr2
+        simp only
+        split
+        · rename_i hpos
+          cases hp : popPick (commonTypes (arityOp (decide (x1 < termpb))) (arityOp (decide (x2 < termpb))) ind1 ind2) tp2 with
+          | error e =>
+            exact (popPick_err (by intro h; rw [h] at hpos; simp at hpos) hp).benign_after (k := 2) (by omega) (by omega)
+          | ok v =>
+            obtain ⟨τ, tp3⟩ := v
+            have hl3 := popPick_ok hp
+            obtain ⟨hn1, hn2⟩ := cands_ne_nil (popPick_ok' hp)
+            simp only
+            have hb := swapAt_benign (tp := tp3) trans refl h1 h2
+              (c1 := idxFrom1 (fun p => arityOp (decide (x1 < termpb)) p && p.ret == τ) ind1)
+              (c2 := idxFrom1 (fun p => arityOp (decide (x2 < termpb)) p && p.ret == τ) ind2)
+              (by intro i1 hi1 i2 hi2
+                  obtain ⟨_, p1, hp1, hf1⟩ := mem_idxFrom1 hi1
+                  obtain ⟨_, p2, hp2, hf2⟩ := mem_idxFrom1 hi2
+                  simp at hf1 hf2
+                  exact ⟨p1, p2, hp1, hp2, by rw [hf1.2, hf2.2]; exact refl _, by rw [hf1.2, hf2.2]; exact refl _⟩)
+              hn1 hn2
+            cases hr : swapAt ind1 ind2 (idxFrom1 (fun p => arityOp (decide (x1 < termpb)) p && p.ret == τ) ind1)
+                (idxFrom1 (fun p => arityOp (decide (x2 < termpb)) p && p.ret == τ) ind2) tp3 with
+            | ok v => simp [Benign]
+            | error e =>
+              rw [hr] at hb
+              cases e <;> simp [Benign] at hb ⊢ <;> omega
+        · simp [Benign]
+
+/-- `mutUniform` with a replacement generator that is total with bound `B` and returns well-formed
+trees of the requested type: never raises; tapes of length ≥ `B + 1` suffice. -/
+theorem mutUniform_total {r : Nat} {ind : List Prim} (tp : Tape) {B : Nat}
+    {expr : Nat → Tape → R (List Prim × Tape)}
+    (hexpr : ∀ τ tp o tp', expr τ tp = .ok (o, tp') → WellFormed sub τ o)
+    (htot : ∀ p ∈ ind, ∀ tp, Benign B tp (expr p.ret tp))
+    (h1 : WellFormed sub r ind) : Benign (B + 1) tp (mutUniform ind expr tp) := by
+  rw [wellFormed_iff_typed] at h1
+  have hpos := typed_length_pos h1
+  unfold mutUniform
+  cases hrg : popRange 0 ind.length tp with
+  | error e => exact (popRange_err hpos hrg).benign (by omega)
+  | ok v =>
+    obtain ⟨index, tp1⟩ := v
+    obtain ⟨_, hlt, hl1⟩ := popRange_ok hrg
+    simp only
+    have hn : ind[index]? = some ind[index] := List.getElem?_eq_getElem hlt
+    obtain ⟨e', hs', _, _, _, _, hset⟩ := splice trans refl h1 hn
+    rw [hs', hn]
+    simp only
+    have hb := htot ind[index] (List.getElem_mem hlt) tp1
+    cases hex : expr ind[index].ret tp1 with
+    | error e =>
+      rw [hex] at hb
+      simp only
+      cases e <;> simp [Benign] at hb ⊢ <;> omega
+    | ok v =>
+      obtain ⟨new, tp2⟩ := v
+      simp only
+      rw [(hset new (wellFormed_iff_typed.1 (hexpr _ _ _ _ hex))).1]
+      simp [Benign]
+
+omit refl trans in
+/-- … in particular with DEAP's own generators as replacement generator (`expr = genFull/genGrow(min, max)`),
+when the return type of every node of the tree can be requested. -/
+theorem mutUniform_gen_total {ps : Pset} (ok : PsetOK ps) {Rq : Nat → Prop} {A : Nat} (full : PsetFull ps Rq A)
+    (mode : GenMode) (mn mx : Nat) (hmm : mn ≤ mx) {r : Nat} {ind : List Prim} (tp : Tape)
+    (hind : ∀ p ∈ ind, Rq p.ret) (h1 : WellFormed ps.sub r ind) :
+    Benign (3 * nodes A mx + 2) tp (mutUniform ind (generate mode ps mn mx) tp) := by
+  refine mutUniform_total ok.refl ok.trans tp ?_ (fun p hp tp => gen_total ps Rq A full mode mn mx p.ret hmm (hind p hp) tp) h1
+  intro τ tp o tp' h
+  cases mode with
+  | full => obtain ⟨t, h1, h2, _⟩ := gen_full ps ok mn mx τ tp tp' o h; exact ⟨t, h2, h1⟩
+  | grow => obtain ⟨t, h1, h2, _⟩ := gen_grow ps ok mn mx τ tp tp' o h; exact ⟨t, h2, h1⟩
+
+omit refl trans in
+/-- `mutNodeReplacement`: never raises when the tree's nodes come from the primitive set (a terminal
+node's type has terminals; a primitive node has a same-signature primitive in its type's pool —
+itself); tapes of length ≥ 3 suffice. -/
+theorem nodeRepl_total {ps : Pset} (ok : PsetOK ps) {ind : List Prim} (tp : Tape)
+    (hfrom : ∀ p ∈ ind, (p.arity = 0 → ps.terms p.ret ≠ []) ∧
+      (p.arity ≠ 0 → ∃ q ∈ ps.prims p.ret, q.args = p.args)) :
+    Benign 3 tp (mutNodeReplacement ind ps tp) := by
+  unfold mutNodeReplacement
+  split
+  · simp [Benign]
+  · rename_i hlen
+    cases hrg : popRange 1 ind.length tp with
+    | error e => exact (popRange_err (by omega) hrg).benign (by omega)
+    | ok v =>
+      obtain ⟨index, tp1⟩ := v
+      obtain ⟨_, hlt, hl1⟩ := popRange_ok hrg
+      simp only
+      rw [List.getElem?_eq_getElem hlt]
+      simp only
+      obtain ⟨hterm, hprim⟩ := hfrom ind[index] (List.getElem_mem hlt)
+      split
+      · rename_i har
+        cases hch : popChoice (ps.terms ind[index].ret) tp1 with
+        | error e => exact (popChoice_err (hterm har) hch).benign_after (k := 1) (by omega) (by omega)
+        | ok v =>
+          obtain ⟨term, tp2⟩ := v
+          obtain ⟨hmem, hl2⟩ := popChoice_ok hch
+          simp only
+          cases hin : instantiate term tp2 with
+          | error e => exact (instantiate_err hin).benign_after (k := 2) (by omega) (by omega)
+          | ok v =>
+            obtain ⟨term', tp3⟩ := v
+            obtain ⟨⟨_, e2, _, _⟩, _, _⟩ := instantiate_ok hin
+            simp only
+            have : setItem ind index term' = some (ind.set index term') := by
+              unfold setItem
+              rw [List.getElem?_eq_getElem hlt]
+              simp [Prim.arity, e2, (ok.terms_ok _ term hmem).2] at har ⊢
+              exact har.symm ▸ rfl
+            rw [this]; simp [Benign]
+      · rename_i har
+        obtain ⟨q, hq, hqa⟩ := hprim har
+        cases hch : popChoice ((ps.prims ind[index].ret).filter (fun p => p.args == ind[index].args)) tp1 with
+        | error e =>
+          exact (popChoice_err (List.ne_nil_of_mem (List.mem_filter.2 ⟨hq, by simp [hqa]⟩)) hch).benign_after
+            (k := 1) (by omega) (by omega)
+        | ok v =>
+          obtain ⟨p, tp2⟩ := v
+          have hm := popChoice_mem hch
+          simp at hm
+          simp only
+          have : setItem ind index p = some (ind.set index p) := by
+            unfold setItem
+            rw [List.getElem?_eq_getElem hlt]
+            simp [Prim.arity, hm.2]
+          rw [this]; simp [Benign]
+
+omit refl trans in
+/-- `mutEphemeral` never raises; tapes of length ≥ `len(individual) + 1` suffice (one `choice`
+in mode "one", one generator draw per ephemeral). -/
+theorem ephemeral_total {ind : List Prim} (one : Bool) (tp : Tape) :
+    Benign (ind.length + 2) tp (mutEphemeral ind one tp) := by
+  unfold mutEphemeral
+  simp only
+  have hidx : ∀ i ∈ idxGo (fun p => decide (p.kind = Kind.eph)) ind 0, i < ind.length := by
+    intro i hi; have := idxGo_lt hi; omega
+  have hcount : (idxGo (fun p => decide (p.kind = Kind.eph)) ind 0).length ≤ ind.length := by
+    have : ∀ (l : List Prim) (i : Nat), (idxGo (fun p => decide (p.kind = Kind.eph)) l i).length ≤ l.length := by
+      intro l
+      induction l with
+      | nil => intro i; simp [idxGo]
+      | cons a l ih =>
+        intro i; simp only [idxGo]
+        split
+        · simp; exact ih (i + 1)
+        · have := ih (i + 1); simp; omega
+    exact this ind 0
+  split
+  · rename_i hpos
+    split
+    · cases hch : popChoice (idxGo (fun p => decide (p.kind = Kind.eph)) ind 0) tp with
+      | error e => exact (popChoice_err (by intro h; rw [h] at hpos; simp at hpos) hch).benign (by omega)
+      | ok v =>
+        obtain ⟨i, tp1⟩ := v
+        obtain ⟨hmem, hl⟩ := popChoice_ok hch
+        simp only
+        have hb := reinstAll_benign [i] ind tp1 (by intro j hj; simp at hj; subst hj; exact hidx _ hmem)
+        cases hr : reinstAll ind [i] tp1 with
+        | ok v => simp [Benign]
+        | error e =>
+          rw [hr] at hb
+          cases e <;> simp [Benign] at hb ⊢ <;> omega
+    · exact (reinstAll_benign _ ind tp hidx).mono (by omega)
+  · simp [Benign]
+
+/-- `mutInsert`: never raises when every argument type of the set's primitives has a terminal and
+arities are ≤ `A`; tapes of length ≥ `2·A + 4` suffice. -/
+theorem insert_total {ps : Pset} (ok : PsetOK ps) (hsub : ps.sub = sub) {A : Nat}
+    (hterms : ∀ τ p, p ∈ ps.prims τ → p.args.length ≤ A ∧ ∀ a ∈ p.args, ps.terms a ≠ [])
+    {r : Nat} {ind : List Prim} (tp : Tape) (h1 : WellFormed sub r ind) :
+    Benign (2 * A + 4) tp (mutInsert ind ps tp) := by
+  subst hsub
+  rw [wellFormed_iff_typed] at h1
+  have hpos := typed_length_pos h1
+  unfold mutInsert
+  cases hrg : popRange 0 ind.length tp with
+  | error e => exact (popRange_err hpos hrg).benign (by omega)
+  | ok v =>
+    obtain ⟨index, tp1⟩ := v
+    obtain ⟨_, hlt, hl1⟩ := popRange_ok hrg
+    simp only
+    have hn : ind[index]? = some ind[index] := List.getElem?_eq_getElem hlt
+    obtain ⟨e', hs', _, _, hsl, _, hset⟩ := splice ok.trans ok.refl h1 hn
+    rw [hs', hn]
+    simp only
+    split
+    · simp [Benign]
+    · rename_i hne
+      cases hch : popChoice ((ps.prims ind[index].ret).filter (fun p => p.args.contains ind[index].ret)) tp1 with
+      | error e =>
+        exact (popChoice_err (by intro h; rw [h] at hne; simp at hne) hch).benign_after (k := 1) (by omega) (by omega)
+      | ok v =>
+        obtain ⟨newNode, tp2⟩ := v
+        obtain ⟨hm, hl2⟩ := popChoice_ok hch
+        simp at hm
+        obtain ⟨hA, hts⟩ := hterms _ newNode hm.1
+        obtain ⟨hsr, _⟩ := ok.prims_ok _ newNode hm.1
+        simp only
+        cases hps : popChoice (idxGo (fun a => a == ind[index].ret) newNode.args 0) tp2 with
+        | error e =>
+          exact (popChoice_err (idxGo_ne_nil ⟨ind[index].ret, hm.2, by simp⟩) hps).benign_after (k := 2)
+            (by omega) (by omega)
+        | ok v =>
+          obtain ⟨position, tp3⟩ := v
+          obtain ⟨hpm, hl3⟩ := popChoice_ok hps
+          simp only
+          have hb := insertArgs_benign (ps := ps) (subl := getSlice ind index e') (position := position)
+            newNode.args 0 tp3 hts
+          cases hins : insertArgs ps (getSlice ind index e') position 0 newNode.args tp3 with
+          | error e =>
+            rw [hins] at hb
+            simp only
+            cases e <;> simp [Benign] at hb ⊢ <;> omega
+          | ok v =>
+            obtain ⟨newSub, tp4⟩ := v
+            simp only
+            obtain ⟨k, a, hk, ha, hfa⟩ := mem_idxGo hpm
+            simp at hfa hk; subst hfa; subst hk
+            obtain ⟨ht, _⟩ := insertArgs_spec ok hsl newNode.args 0 tp3 newSub tp4 hins
+              (by intro k hk _; simp at hk; subst hk; exact ha)
+            have hv : typed ps.sub [ind[index].ret] (newNode :: newSub) = true := by
+              simp only [typed, hsr, Bool.true_and]
+              have := ht [] []
+              simpa [typed] using this
+            rw [(hset _ hv).1]
+            simp [Benign]
+
+omit refl trans in
+/-- `mutShrink` on a well-formed tree never raises; tapes of length ≥ 2 suffice. -/
+theorem shrink_total
+    (refl : ∀ a, sub a a = true) (trans : ∀ a b c, sub a b = true → sub b c = true → sub a c = true)
+    {r : Nat} {ind : List Prim} (tp : Tape) (h1 : WellFormed sub r ind) :
+    Benign 2 tp (mutShrink ind tp) := by
+  obtain ⟨t, hw, rfl⟩ := h1
+  have h1 : typed sub [r] (flatten t) = true := typed_iff_tree.2 ⟨t, hw, rfl⟩
+  unfold mutShrink
+  split
+  · simp [Benign]
+  · rw [heightL_flatten (wf_of_wt hw)]
+    simp only
+    split
+    · simp [Benign]
+    · split
+      · rename_i hne
+        cases hch : popChoice (idxFrom1 (fun p => p.kind = .prim && p.args.contains p.ret) (flatten t)) tp with
+        | error e =>
+          exact (popChoice_err (by intro h; rw [h] at hne; simp at hne) hch).benign (by omega)
+        | ok v =>
+          obtain ⟨index, tp1⟩ := v
+          obtain ⟨hmem, hl1⟩ := popChoice_ok hch
+          obtain ⟨_, prim, hp, hf⟩ := mem_idxFrom1 hmem
+          simp at hf
+          simp only
+          rw [hp]
+          simp only
+          cases hc2 : popChoice (idxGo (fun a => a == prim.ret) prim.args 0) tp1 with
+          | error e =>
+            exact (popChoice_err (idxGo_ne_nil ⟨prim.ret, hf.2, by simp⟩) hc2).benign_after (k := 1) (by omega) (by omega)
+          | ok v =>
+            obtain ⟨argIdx, tp2⟩ := v
+            obtain ⟨k, a, hk, ha, hfa⟩ := mem_idxGo (popChoice_mem hc2)
+            simp at hfa hk; subst hfa; subst hk
+            simp only
+            obtain ⟨rb, re, b, e, out, hn, hs, hset⟩ := shrink_step refl trans h1 hp ha
+            rw [hn, hs]
+            simp only
+            rw [hset]
+            simp [Benign]
+      · simp [Benign]
+
+end TotalOps
+
+example : Benign 3 [.pick 1 1, .choice 2 0, .choice 3 0]
+    (cxOnePoint [pAdd, pOne, pOne] [pAdd, pTrue, pAdd, pOne, pOne] [.pick 1 1, .choice 2 0, .choice 3 0]) :=
+  cx_total exSub_refl exSub_trans _ ex_wf3 ex_wf5
 
 /-! ## The pools -/
 
